@@ -99,6 +99,12 @@ func c26Names(lens []int) []string {
 				base += string(rune('a' + (i/26)%26))
 			}
 		}
+		if l == 2 && i%3 == 0 {
+			base = "." + string(rune('a'+i%26)) // a two-character dot-file: neither "." nor ".."
+		}
+		if l == 3 && i%4 == 1 {
+			base = ".." + string(rune('a'+i%26)) // begins like ".." and is an ordinary name
+		}
 		name := base
 		if len(name) < l {
 			name += strings.Repeat("x", l-len(name))
